@@ -375,6 +375,55 @@ fn gen_bytes_case(tape: Vec<u8>) -> BytesCase {
     let data_hex = hex_lower(&model.data);
     let to_hex = hex_lower(&model.to.unwrap());
     let n = if shape == Shape::LegacyChain { 17 } else { 27 };
+    if u.ratio(1, 5) {
+        // the text has the length of a well-formed value but its first two characters are not the prefix
+        // (a parser that checks the length and skips two characters would take it)
+        let fields: &[&str] = if shape == Shape::LegacyChain { &["data", "to"] } else { &["data", "to", "al-address", "al-slot"] };
+        let field = fields[u.below(fields.len())];
+        let (a0, slots0) = model.access_list.first().cloned().unwrap_or(([0u8; 20], vec![]));
+        let s0 = slots0.first().copied().unwrap_or([0u8; 32]);
+        let digits = match field {
+            "data" => data_hex.clone(),
+            "to" => to_hex.clone(),
+            "al-address" => hex_lower(&a0),
+            _ => hex_lower(&s0),
+        };
+        let (text, kind, expect): (String, &str, Option<bool>) = match u.below(9) {
+            0 => (format!("x0{digits}"), "x0", Some(false)),
+            1 => (format!("  {digits}"), "two-blanks", Some(false)),
+            2 => (format!("{}{digits}", hex_lower(&u.bytes(1))), "two-more-digits-no-prefix", Some(false)),
+            3 => (format!("0y{digits}"), "0y", Some(false)),
+            4 => (format!("1x{digits}"), "1x", Some(false)),
+            5 => (format!("\u{ff10}x{}", digits.get(1..).unwrap_or("")), "fullwidth-zero", Some(false)),
+            6 => (format!("#x{digits}"), "hash-sign", Some(false)),
+            7 => (format!("0X{digits}"), "0X", None),
+            _ => (format!("0\u{445}{}", digits.get(1..).unwrap_or("")), "cyrillic-x", Some(false)),
+        };
+        let what: String = format!("{field}-same-length-prefix-{kind}");
+        match field {
+            "data" | "to" => {
+                for (k, v) in kv.iter_mut() {
+                    if k == field {
+                        *v = J::Str(text.clone());
+                    }
+                }
+            }
+            _ => {
+                let (addr, slot) = if field == "al-address" { (text.clone(), hex0x(&s0)) } else { (hex0x(&a0), text.clone()) };
+                let mut entries: Vec<J> = vec![J::Arr(vec![J::Str(addr), J::Arr(vec![J::Str(slot)])])];
+                for (a2, s2) in model.access_list.iter().skip(1) {
+                    entries.push(J::Arr(vec![J::Str(hex0x(a2)), J::Arr(s2.iter().map(|s| J::Str(hex0x(s))).collect())]));
+                }
+                model.access_list[0].1 = vec![s0];
+                for (k, v) in kv.iter_mut() {
+                    if k == "accessList" {
+                        *v = J::Arr(entries.clone());
+                    }
+                }
+            }
+        }
+        return BytesCase { doc: J::Obj(kv).render(), model, what, expect_ok: expect };
+    }
     let (key, val, what, expect): (&str, J, &str, Option<bool>) = match u.below(n) {
         0 => ("data", J::Str(data_hex.clone()), "data-no-prefix", Some(false)),
         1 => ("data", J::Str(format!("0x{data_hex}a")), "data-odd-length", Some(false)),
@@ -477,6 +526,8 @@ pub fn run(ctx: &mut Ctx) {
     }
     ctx.floor_abs("class-literal", n as u64 / 20);
     ctx.floor_abs("bytes/al-slot-31-bytes", 20);
+    ctx.floor_abs("bytes/al-slot-same-length-prefix-two-more-digits-no-prefix", 20);
+    ctx.floor_abs("bytes/to-same-length-prefix-x0", 20);
     ctx.floor_abs("bytes/to-19-bytes", 20);
 }
 
